@@ -244,6 +244,61 @@ func regenerated(o ops.Op, hf map[string][]string) []string {
 	return nil
 }
 
+// extendsStyles: edit kinds that refer to a style id and may therefore make the library add the definition of
+// that id to the styles part the package came with (never rewrite it).
+var extendsStyles = map[string]bool{"heading": true, "headingbm": true, "headingbm2": true, "pstyle": true, "toc": true, "autotoc": true, "updatetoc": true, "tblstyle": true, "tblcustom": true}
+
+// onlyStylesAdded compares the styles part before and after: every child of the root of `before` must still be
+// there, in the same order and canonically equal; what was added must be w:style elements whose w:styleId the
+// part did not define. Returns "" when that holds, otherwise what differs.
+func onlyStylesAdded(before, after []byte) string {
+	a, err := canon.Parse(before)
+	if err != nil {
+		return "" // the input part was not parseable: nothing to demand
+	}
+	b, err := canon.Parse(after)
+	if err != nil {
+		return fmt.Sprintf("no longer parseable: %v", err)
+	}
+	if a.Space != b.Space || a.Local != b.Local {
+		return fmt.Sprintf("root changed from %s to %s", a.Name(), b.Name())
+	}
+	had := map[string]bool{}
+	for _, k := range a.Kids {
+		if k.Is(foreign.NSW, "style") {
+			had[k.A(foreign.NSW, "styleId")] = true
+		}
+	}
+	i := 0
+	for _, k := range b.Kids {
+		if i < len(a.Kids) && k.String() == a.Kids[i].String() {
+			i++
+			continue
+		}
+		if !k.Is(foreign.NSW, "style") {
+			return fmt.Sprintf("element %s added or changed (child %d of the original is %s)", k.Name(), i, kidName(a, i))
+		}
+		if id := k.A(foreign.NSW, "styleId"); had[id] {
+			return fmt.Sprintf("style %q of the package was changed or duplicated", id)
+		}
+	}
+	if i < len(a.Kids) {
+		return fmt.Sprintf("child %d of the original styles part (%s) is gone or changed", i, kidName(a, i))
+	}
+	return ""
+}
+
+func kidName(n *canon.Node, i int) string {
+	if i < len(n.Kids) {
+		k := n.Kids[i]
+		if id := k.A(foreign.NSW, "styleId"); id != "" {
+			return k.Name() + " " + id
+		}
+		return k.Name()
+	}
+	return "-"
+}
+
 // bodyText returns the concatenation of all w:t under w:body of a main part, in document order.
 func bodyText(main []byte) (string, int, error) {
 	root, err := canon.Parse(main)
@@ -334,6 +389,7 @@ func run(c Case) *kit.Result {
 	x := ops.NewExec(dir)
 	x.Doc = doc
 	G := map[string]bool{"word/document.xml": true, "[Content_Types].xml": true, "_rels/.rels": true, "word/_rels/document.xml.rels": true}
+	Ext := map[string]bool{} // parts an op may EXTEND (definitions added), everything they held must stay
 	oldP := map[*document.Paragraph]bool{}
 	oldT := map[*document.Table]bool{}
 	markOld := func() {
@@ -362,6 +418,9 @@ func run(c Case) *kit.Result {
 		res.Label("op:" + op.K)
 		for _, g := range regenerated(op, hf) {
 			G[g] = true
+		}
+		if extendsStyles[op.K] {
+			Ext["word/styles.xml"] = true
 		}
 		switch {
 		case bodyRemoving[op.K]:
@@ -476,6 +535,16 @@ func run(c Case) *kit.Result {
 			continue
 		}
 		got, ok := Q.Parts[name]
+		if ok && Ext[name] && !bytes.Equal(got, P.Parts[name]) {
+			// a call that refers to a style (heading, paragraph style, TOC) may add the definitions the
+			// package lacks; nothing the part held may change or go
+			res.Eval("C04.N1.extended")
+			if d := onlyStylesAdded(P.Parts[name], got); d != "" {
+				res.Fail("C04.N1.extended", "part %q: %s", name, d)
+			}
+			res.Label("n1:styles-part-extended")
+			continue
+		}
 		switch {
 		case !ok:
 			res.Fail("C04.N1", "part %q of the opened package is missing after save", name)
